@@ -277,7 +277,7 @@ func runC02(r *Report) {
 				r.Fail("R4", key, cs.Pos(), "NewReader is called from %s: a consumer the rule does not know", fname(f))
 			}
 		}
-		r.Sentinel("R4", m, 2)
+		r.SentinelEx("R4", m, 2, "fuse", 1)
 	}
 	// ---- R5
 	sema := p.Field("fuse", "handle", "sema")
